@@ -846,15 +846,21 @@ class Models(object):
             if name == 'rfind':
                 if len(args) != 1:
                     raise Unsupported('rfind with start')
-                r = ex.fresh_int(path, 'rfind')
                 sub = args[0].t
                 n, m = z3.Length(s.t), z3.Length(sub)
-                # axiomatise last occurrence
-                path.assume(z3.If(z3.Contains(s.t, sub),
-                                  z3.And(r >= 0, r + m <= n, z3.SubString(s.t, r, m) == sub,
-                                         z3.Not(z3.Contains(z3.SubString(s.t, r + 1, n), sub))),
-                                  r == -1))
-                return [(path, VInt(r))]
+                # last occurrence: one outcome per case (found: axiomatised index; not found: -1)
+                out = []
+                pt, pf = ex.branch(path, z3.Contains(s.t, sub))
+                if pt is not None:
+                    r = ex.fresh_int(pt, 'rfind')
+                    pt.assume(r >= 0)
+                    pt.assume(r + m <= n)
+                    pt.assume(z3.SubString(s.t, r, m) == sub)
+                    pt.assume(z3.Not(z3.Contains(z3.SubString(s.t, r + 1, n), sub)))
+                    out.append((pt, VInt(r)))
+                if pf is not None:
+                    out.append((pf, VInt(-1)))
+                return out
             start = args[1].t if len(args) == 2 else z3.IntVal(0)
             if len(args) == 2:
                 ok, c = concrete_of(args[1])
